@@ -145,6 +145,8 @@ class SymExec:
 
     def field_of(self, v, variant, f):
         idx, name = f[1], f[2]
+        if isinstance(name, str) and name.isdigit():
+            name = int(name)
         if v[0] == "A":
             for (fn, fv) in v[3]:
                 if fn == name or fn == idx:
@@ -199,6 +201,10 @@ class SymExec:
         elif elems[0][0] == "f":
             key = (None, elems[0][1])
         old = self.read_local(p, l)
+        if old[0] == "C" and old[2].endswith("::new_uninit"):
+            # `vec![..]` lowering: the array is written into a fresh Box<MaybeUninit<[T; N]>>
+            p.env[l] = v
+            return
         if key is None or len(elems) > (2 if elems[0][0] == "dc" else 1):
             p.env[l] = ("M", -1, old)
             return
@@ -455,6 +461,7 @@ class SymExec:
             "std::clone::Clone::clone", "std::borrow::ToOwned::to_owned", "std::option::Option::<T>::as_ref",
             "std::option::Option::<&T>::copied", "std::option::Option::<&T>::cloned", "std::option::Option::<T>::as_mut",
             "std::boxed::Box::<T>::new", "std::boxed::Box::<T>::pin", "std::string::String::as_str",
+            "std::boxed::box_assume_init_into_vec_unsafe",
         ):
             val = args[0] if args else ("?", "noargs")
         elif name == "std::future::Future::poll":
